@@ -84,19 +84,24 @@ def endpos_rule(ctx, rule_id, class_qual, floor):
         ok = bool(paths)
         for p in paths:
             good = False
+            modified = False        # t.value / t.lexpos re-bound: len(t.value) is no longer the length of the matched text
             for n, _ in p:
-                if n.kind == 'stmt' and _resolved_match(t.fn, '%s.endlexpos = _V' % tp, n.ast, ['%s.lexpos + len(%s.value)' % (tp, tp),
-                                                                                               'len(%s.value) + %s.lexpos' % (tp, tp)]):
-                    good = True
-                elif n.kind == 'stmt' and good and isinstance(n.ast, ast.Assign) and \
-                        any(src(x).startswith('%s.value' % tp) or src(x) == '%s.endlexpos' % tp for x in n.ast.targets):
-                    good = src(n.ast.targets[0]) == '%s.endlexpos' % tp and _resolved_match(
-                        t.fn, '%s.endlexpos = _V' % tp, n.ast, ['%s.lexpos + len(%s.value)' % (tp, tp), 'len(%s.value) + %s.lexpos' % (tp, tp)])
+                if n.kind != 'stmt':
+                    continue
+                tg = n.ast.targets if isinstance(n.ast, ast.Assign) else ([n.ast.target] if isinstance(n.ast, ast.AugAssign) else [])
+                if any(src(x) in ('%s.value' % tp, '%s.lexpos' % tp) for x in tg):
+                    modified = True
+                    continue
+                if _resolved_match(t.fn, '%s.endlexpos = _V' % tp, n.ast, ['%s.lexpos + len(%s.value)' % (tp, tp),
+                                                                          'len(%s.value) + %s.lexpos' % (tp, tp)]):
+                    good = not modified
+                elif any(src(x) == '%s.endlexpos' % tp for x in tg):
+                    good = False
             ok = ok and good
         r.check(ok, 't_%s sets endlexpos = lexpos + len(value) on all %d returning paths' % (t.name, len(paths)), t.fn,
                 construct='%s.t_%s' % (class_qual, t.name), key='endlexpos',
-                msg='t_%s returns a token on a path where %s.endlexpos is not set to %s.lexpos + len(%s.value) (or the value '
-                    'is changed afterwards): every node ending with this token gets a wrong end position' % (t.name, tp, tp, tp))
+                msg='t_%s returns a token on a path where %s.endlexpos is not set to %s.lexpos + len(%s.value) of the MATCHED text (the value '
+                    'is re-bound before, or endlexpos overwritten afterwards): every node ending with this token gets a wrong end position' % (t.name, tp, tp, tp))
     return r
 
 
